@@ -10,7 +10,7 @@ from ..core.common import Collector, run_shards
 PROPERTY = "C20"
 LEVEL = "exploration"
 RULE = ("all base vectors over {-2,-1,0,1}^n, n=1..4, x every non-empty coordinate subset x every assignment of "
-        "perturbation amounts {5e-11, 2e-10, 1.0, 1e300} to the subset; both argument orders. Container clauses over all "
+        "perturbation amounts {5e-11, 2e-10, 1.0, 1e300} to the subset; both argument orders. large-magnitude vectors (1e5..3e12) with absolute differences 1e-6..16. Container clauses over all "
         "ordered pairs/triples of lattice vectors (n<=2 incl. the hash collision -1.0/-2.0). generate(): every script of "
         "child pairs over a 2-D lattice, population sizes 2..4, with stub selector/crossover/mutator. "
         "Non-trivial = the two vectors differ in at least one coordinate; distinct = distinct case tuples.")
@@ -18,6 +18,8 @@ ASSUMPTIONS = ["vectors of equal length n>=1 with finite float coordinates",
                "amounts avoid the 1e-10 threshold itself (5e-11 below, 2e-10 above)"]
 
 LAT = (-2.0, -1.0, 0.0, 1.0)
+# children handed to generate(): shared coordinates, a near-equal pair and the hash collision hash(-1.0) == hash(-2.0)
+LAT2 = [(0.0, 0.0), (0.0, 1.0), (1.0, 0.0), (1.0 + 5e-11, 0.0), (-1.0, 0.0), (-2.0, 0.0)]
 AMOUNTS = (5e-11, 2e-10, 1.0, 1e300)
 
 
@@ -181,6 +183,24 @@ def _shard(shard, col: Collector):
                             for key, msg in check_eq(base, b):
                                 col.violation(key, "eq", msg, {"a": base, "b": b})
         col.sample({"kind": "eq", "a": [first] * n, "b": [first] * (n - 1) + [first + 2e-10], "expected_equal": False}, 1)
+    elif kind == "big":
+        # large-magnitude coordinates: absolute 1e-10 is the rule, whatever the magnitude (no relative tolerance)
+        bigs = (1e5, 250000.0, -1e8, 3.0e12)
+        amts = (0.0, 1e-6, 1.0, 16.0)
+        for n in (1, 2):
+            for base in itertools.product(bigs, repeat=n):
+                for am in itertools.product(amts, repeat=n):
+                    for sgn in (1.0, -1.0):
+                        b = tuple(x + sgn * a for x, a in zip(base, am))
+                        col.case()
+                        if b != base:
+                            col.nontrivial(("big", base, b))
+                        for key, msg in check_eq(base, b):
+                            col.violation(key, "eq", msg, {"a": base, "b": b})
+                        if b != base:
+                            for key, msg in check_containers([base], b):
+                                col.violation(key, "cont", msg, {"vs": [base], "probe": b})
+        col.sample({"kind": "eq-large-magnitude", "a": [250000.0], "b": [250001.0], "expected_equal": False}, 1)
     elif kind == "cont":
         _, n = shard
         allv = list(itertools.product(LAT, repeat=n))
@@ -194,7 +214,7 @@ def _shard(shard, col: Collector):
         col.sample({"kind": "containers", "vs": [[-1.0] * n, [-2.0] + [-1.0] * (n - 1)], "probe": [-2.0] * n}, 1)
     elif kind == "gen":
         _, npop, c_first = shard
-        lat2 = [(0.0, 0.0), (0.0, 1.0), (1.0, 0.0), (1.0, 1.0), (1.0 + 5e-11, 0.0)]
+        lat2 = LAT2
         pairs = [(a, b) for a in lat2 for b in lat2]
         for p2 in pairs:
             for p3 in pairs:
@@ -222,11 +242,11 @@ def run(tier, seed):
     for n in (1, 2, 3, 4):
         for first in LAT:
             shards.append(("eq", n, first))
-    shards += [("cont", 1), ("cont", 2)]
-    lat2 = [(0.0, 0.0), (0.0, 1.0), (1.0, 0.0), (1.0, 1.0), (1.0 + 5e-11, 0.0)]
+    shards += [("cont", 1), ("cont", 2), ("big",)]
+    lat2 = LAT2
     firsts = [(a, b) for a in lat2 for b in lat2]
     for npop in (2, 3, 4):
-        for f in (firsts if tier == "thorough" else firsts[::2]):
+        for f in (firsts if tier == "thorough" else firsts[::3]):
             shards.append(("gen", npop, f))
     shards.sort(key=lambda s: 0 if s[0] == "eq" and s[1] == 4 else 1)
     col = run_shards(_shard, shards)
